@@ -686,7 +686,7 @@ func frameC(thorough bool) *frame {
 			as("append-many", "s = append(s, b, x)", eff{"E", x}),
 			as("reset", "s = []int{a}\n\tm = map[int]int{5: b}"),
 			as("elem-opassign", "s[0] += a\n\tm[5] -= b", eff{"E", B("+", E, a)}, eff{"E", B("-", E, b)}),
-			as("nil-slice", "var t []int\n\tt = append(t, a)\n\ts = t"),
+			as("nil-slice", "{\n\t\tvar t []int\n\t\tt = append(t, a)\n\t\ts = t\n\t}"),
 			as("make", "s = make([]int, 2)\n\tm = make(map[int]int)\n\tm[5] = a"),
 			&atom{kind: "breakL", text: "break %L", needs: "loopN", ends: true},
 			&atom{kind: "continueL", text: "continue %L", needs: "loopN", ends: true},
@@ -750,14 +750,14 @@ func frameS(thorough bool) *frame {
 	if thorough {
 		fr.atoms = append(fr.atoms,
 			as("substr-both", "t = t[1:a]"),
-			as("str-ne", `k = s != t || k`),
+			as("str-eq/ne", `k = s != t || k`),
 			as("byte-append", "bs = append(bs, byte(a&15+65))"),
 			as("byte-copy", "n += copy(bs, []byte(t))", eff{"n", B("+", n, Bound("copy", 0, 100000))}),
 			as("byte-get", "n += int(bs[a])", eff{"n", B("+", n, Bound("bs[a]", 0, 255))}),
 			as("bytes-sub", "bs = bs[1:]"),
 			as("range-str", "for i, c := range t {\n\t\tn += i*3 + int(c)\n\t}", eff{"n", B("+", n, Bound("rs", 0, 100000000))}),
 			as("range-bytes", "for _, c := range bs {\n\t\tn += int(c)\n\t}", eff{"n", B("+", n, Bound("rb", 0, 100000000))}),
-			as("switch-str", "switch t {\n\tcase \"\":\n\t\tn += 1\n\tcase \"a\", \"ab\":\n\t\tn += 2\n\tdefault:\n\t\tn += 3\n\t}", eff{"n", B("+", n, K(3))}),
+			as("str-eq/switch", "switch t {\n\tcase \"\":\n\t\tn += 1\n\tcase \"a\", \"ab\":\n\t\tn += 2\n\tdefault:\n\t\tn += 3\n\t}", eff{"n", B("+", n, K(3))}),
 		)
 	}
 	fr.conds = []cond{{text: `s == "a"`}, {text: "len(t) > a"}}
@@ -811,13 +811,21 @@ func exprFns(thorough bool, emit func(Fn)) {
 			}
 			return &ie{op: op, l: l, r: &ie{op: "bound", v: "(" + r.String() + " & 3)", k: 0, l: K(3)}}
 		}
+		if op == "/" || op == "%" {
+			// a constant zero divisor is a compile-time error in Go
+			if x, ok := r.eval(env); ok && x.lo.Sign() == 0 && x.hi.Sign() == 0 {
+				return nil
+			}
+		}
 		return B(op, l, r)
 	}
 	var d1 []*ie
 	for _, op := range ops {
 		for _, l := range leaves {
 			for _, r := range leaves {
-				d1 = append(d1, mk(op, l, r))
+				if e := mk(op, l, r); e != nil {
+					d1 = append(d1, e)
+				}
 			}
 		}
 	}
@@ -825,6 +833,15 @@ func exprFns(thorough bool, emit func(Fn)) {
 		d1 = append(d1, U("neg", l), U("inv", l))
 	}
 	n := 0
+	var opsOf func(e *ie, acc map[string]bool)
+	opsOf = func(e *ie, acc map[string]bool) {
+		if e == nil || e.op == "k" || e.op == "v" || e.op == "bound" {
+			return
+		}
+		acc["op:"+e.op] = true
+		opsOf(e.l, acc)
+		opsOf(e.r, acc)
+	}
 	add := func(feature string, params []Ty, results []Ty, body string, checks ...*ie) {
 		for _, c := range checks {
 			if _, ok := c.eval(env); !ok {
@@ -834,7 +851,22 @@ func exprFns(thorough bool, emit func(Fn)) {
 		n++
 		name := fmt.Sprintf("X%d", n)
 		ps := "a int, b int"
-		emit(Fn{Name: name, Params: params, Results: results, Feature: "X", Paths: []string{feature},
+		// paths (root-cause dedupe): the operators of an expression; the comparison
+		// operator and its syntactic position ("cmp-if:<="); the position of a boolean form
+		paths := []string{feature}
+		if len(checks) > 0 {
+			acc := map[string]bool{}
+			for _, c := range checks {
+				opsOf(c, acc)
+			}
+			paths = nil
+			for _, o := range []string{"+", "-", "*", "/", "%", "&", "|", "^", "<<", ">>", "neg", "inv"} {
+				if acc["op:"+o] {
+					paths = append(paths, "op:"+o)
+				}
+			}
+		}
+		emit(Fn{Name: name, Params: params, Results: results, Feature: "X", Paths: paths,
 			Src: fmt.Sprintf("func %s(%s) %s {\n%s}\n", name, ps, results[0], body)})
 	}
 	ii := []Ty{TInt, TInt}
@@ -870,12 +902,12 @@ func exprFns(thorough bool, emit func(Fn)) {
 					continue
 				}
 				ct := l.String() + " " + c + " " + r.String()
-				add("cmp-ret", ii, []Ty{TBool}, "\treturn "+ct+"\n")
-				add("cmp-if", ii, []Ty{TInt}, "\tif "+ct+" {\n\t\treturn 1\n\t}\n\treturn 2\n")
-				add("cmp-not", ii, []Ty{TInt}, "\tif !("+ct+") {\n\t\treturn 1\n\t} else {\n\t\treturn 2\n\t}\n")
-				add("cmp-for", ii, []Ty{TInt}, "\tn := 0\n\tfor i := 0; i < 3 && "+ct+"; i++ {\n\t\tn += i + 1\n\t}\n\treturn n\n")
-				add("cmp-switch", ii, []Ty{TInt}, "\tswitch {\n\tcase "+ct+":\n\t\treturn 1\n\t}\n\treturn 2\n")
-				add("cmp-var", ii, []Ty{TInt}, "\tk := "+ct+"\n\tif k {\n\t\treturn 1\n\t}\n\treturn 2\n")
+				add("cmp-ret:"+c, ii, []Ty{TBool}, "\treturn "+ct+"\n")
+				add("cmp-if:"+c, ii, []Ty{TInt}, "\tif "+ct+" {\n\t\treturn 1\n\t}\n\treturn 2\n")
+				add("cmp-not:"+c, ii, []Ty{TInt}, "\tif !("+ct+") {\n\t\treturn 1\n\t} else {\n\t\treturn 2\n\t}\n")
+				add("cmp-for:"+c, ii, []Ty{TInt}, "\tn := 0\n\tfor i := 0; i < 3 && "+ct+"; i++ {\n\t\tn += i + 1\n\t}\n\treturn n\n")
+				add("cmp-switch:"+c, ii, []Ty{TInt}, "\tswitch {\n\tcase "+ct+":\n\t\treturn 1\n\t}\n\treturn 2\n")
+				add("cmp-var:"+c, ii, []Ty{TInt}, "\tk := "+ct+"\n\tif k {\n\t\treturn 1\n\t}\n\treturn 2\n")
 			}
 		}
 	}
